@@ -13,7 +13,9 @@ EXTENDS Integers, FiniteSets, TLC
 CONSTANTS Callers,      \* caller processes (strings)
           MaxEst,       \* establisher slots
           MaxFaults,    \* environment budget: connection deaths + not-serving answers + a split
-          AllowClose, AllowSplit
+          AllowClose, AllowSplit,
+          StartCached,  \* TRUE: the region is in the cache and established at the start; FALSE: nobody knows it yet (findRegion)
+          MarkBeforePut \* findRegion marks the fresh region unavailable BEFORE publishing it in the cache (TRUE = the code)
 
 Ests == 1..MaxEst
 Conns == 1..(MaxFaults + 2)
@@ -28,12 +30,16 @@ VARIABLES
   cpc, cwait, ccl, \* callers: control point, channel waited on, client in hand
   epc, ecl,        \* establishers: control point ("free" = slot unused), client in hand
   faults, nsre,    \* environment: budget used; the region answers "not serving" to the next request
-  cdone            \* the client was closed
+  cdone,           \* the client was closed
+  inCache          \* the region object is published in the regions cache
 
-vars == <<avail, nextGen, closedGens, client, connUp, cached, dead, panicked, cpc, cwait, ccl, epc, ecl, faults, nsre, cdone>>
+vars == <<avail, nextGen, closedGens, client, connUp, cached, dead, panicked, cpc, cwait, ccl, epc, ecl, faults, nsre, cdone, inCache>>
 
 Init ==
-  /\ avail = 0 /\ nextGen = 1 /\ closedGens = {} /\ client = 1 /\ connUp = [k \in Conns |-> k = 1] /\ cached = 1
+  /\ avail = 0 /\ nextGen = 1 /\ closedGens = {}
+  /\ inCache = StartCached
+  /\ client = (IF StartCached THEN 1 ELSE 0) /\ connUp = [k \in Conns |-> StartCached /\ k = 1]
+  /\ cached = (IF StartCached THEN 1 ELSE 0)
   /\ dead = FALSE /\ panicked = FALSE
   /\ cpc = [c \in Callers |-> "start"] /\ cwait = [c \in Callers |-> 0] /\ ccl = [c \in Callers |-> 0]
   /\ epc = [e \in Ests |-> "free"] /\ ecl = [e \in Ests |-> 0]
@@ -59,16 +65,17 @@ MarkAvailable ==
 (* a caller: getRegionAndClientForRPC, send, handleResultError *)
 CStart(c) ==          \* region from the cache; first availability check
   /\ cpc[c] = "start"
-  /\ IF dead THEN cpc' = [cpc EXCEPT ![c] = "relookup"] /\ UNCHANGED cwait     \* the cache no longer returns a dead region
+  /\ IF ~inCache THEN cpc' = [cpc EXCEPT ![c] = "miss"] /\ UNCHANGED cwait      \* not in the cache: findRegion
+     ELSE IF dead THEN cpc' = [cpc EXCEPT ![c] = "relookup"] /\ UNCHANGED cwait     \* the cache no longer returns a dead region
      ELSE IF avail # 0 THEN cpc' = [cpc EXCEPT ![c] = "wait1"] /\ cwait' = [cwait EXCEPT ![c] = avail]
      ELSE cpc' = [cpc EXCEPT ![c] = "getc"] /\ UNCHANGED cwait
-  /\ UNCHANGED <<avail, nextGen, closedGens, client, connUp, cached, dead, panicked, ccl, epc, ecl, faults, nsre, cdone>>
+  /\ UNCHANGED <<avail, nextGen, closedGens, client, connUp, cached, dead, panicked, ccl, epc, ecl, faults, nsre, cdone, inCache>>
 
 CWait(c, from, to) ==   \* select { ctx (not modelled here) ; c.done ; <-ch }
   /\ cpc[c] = from
   /\ \/ cwait[c] \in closedGens /\ cpc' = [cpc EXCEPT ![c] = to]
      \/ cdone /\ cpc' = [cpc EXCEPT ![c] = "done"]
-  /\ UNCHANGED <<avail, nextGen, closedGens, client, connUp, cached, dead, panicked, cwait, ccl, epc, ecl, faults, nsre, cdone>>
+  /\ UNCHANGED <<avail, nextGen, closedGens, client, connUp, cached, dead, panicked, cwait, ccl, epc, ecl, faults, nsre, cdone, inCache>>
 
 CGetClient(c) ==      \* client := reg.Client(); nil -> MarkUnavailable [+ establisher]
   /\ cpc[c] = "getc"
@@ -76,48 +83,75 @@ CGetClient(c) ==      \* client := reg.Client(); nil -> MarkUnavailable [+ estab
      THEN /\ ccl' = [ccl EXCEPT ![c] = client] /\ cpc' = [cpc EXCEPT ![c] = "send"]
           /\ UNCHANGED <<avail, nextGen, client, epc>>
      ELSE /\ MarkUnavailableAndSpawn(FALSE) /\ cpc' = [cpc EXCEPT ![c] = "rechk"] /\ UNCHANGED ccl
-  /\ UNCHANGED <<closedGens, connUp, cached, dead, panicked, cwait, ecl, faults, nsre, cdone>>
+  /\ UNCHANGED <<closedGens, connUp, cached, dead, panicked, cwait, ecl, faults, nsre, cdone, inCache>>
 
 CRecheck(c) ==        \* second AvailabilityChan() read
   /\ cpc[c] = "rechk"
   /\ IF avail # 0 THEN cpc' = [cpc EXCEPT ![c] = "wait2"] /\ cwait' = [cwait EXCEPT ![c] = avail]
      ELSE cpc' = [cpc EXCEPT ![c] = "after2"] /\ UNCHANGED cwait
-  /\ UNCHANGED <<avail, nextGen, closedGens, client, connUp, cached, dead, panicked, ccl, epc, ecl, faults, nsre, cdone>>
+  /\ UNCHANGED <<avail, nextGen, closedGens, client, connUp, cached, dead, panicked, ccl, epc, ecl, faults, nsre, cdone, inCache>>
 
 CAfter2(c) ==         \* dead -> look up again; client still nil -> loop; else go
   /\ cpc[c] = "after2"
   /\ IF dead THEN cpc' = [cpc EXCEPT ![c] = "relookup"] /\ UNCHANGED ccl
      ELSE IF client = 0 THEN cpc' = [cpc EXCEPT ![c] = "start"] /\ UNCHANGED ccl
      ELSE ccl' = [ccl EXCEPT ![c] = client] /\ cpc' = [cpc EXCEPT ![c] = "send"]
-  /\ UNCHANGED <<avail, nextGen, closedGens, client, connUp, cached, dead, panicked, cwait, epc, ecl, faults, nsre, cdone>>
+  /\ UNCHANGED <<avail, nextGen, closedGens, client, connUp, cached, dead, panicked, cwait, epc, ecl, faults, nsre, cdone, inCache>>
 
 CSend(c) ==           \* the request over the client in hand: ok / connection dead / region not serving
   /\ cpc[c] = "send"
   /\ IF ~connUp[ccl[c]] THEN cpc' = [cpc EXCEPT ![c] = "srverr"] /\ UNCHANGED nsre
      ELSE IF nsre \/ dead THEN cpc' = [cpc EXCEPT ![c] = "nsrerr"] /\ nsre' = FALSE
      ELSE cpc' = [cpc EXCEPT ![c] = "done"] /\ UNCHANGED nsre
-  /\ UNCHANGED <<avail, nextGen, closedGens, client, connUp, cached, dead, panicked, cwait, ccl, epc, ecl, faults, cdone>>
+  /\ UNCHANGED <<avail, nextGen, closedGens, client, connUp, cached, dead, panicked, cwait, ccl, epc, ecl, faults, cdone, inCache>>
 
 CNotServing(c) ==     \* handleResultError(NotServingRegionError)
   /\ cpc[c] = "nsrerr"
   /\ MarkUnavailableAndSpawn(FALSE) /\ cpc' = [cpc EXCEPT ![c] = "start"]
-  /\ UNCHANGED <<closedGens, connUp, cached, dead, panicked, cwait, ccl, ecl, faults, nsre, cdone>>
+  /\ UNCHANGED <<closedGens, connUp, cached, dead, panicked, cwait, ccl, ecl, faults, nsre, cdone, inCache>>
 
 CClientDown1(c) ==    \* clientDown: the connection leaves the cache ...
   /\ cpc[c] = "srverr"
   /\ cached' = IF cached = ccl[c] THEN 0 ELSE cached
   /\ cpc' = [cpc EXCEPT ![c] = "down2"]
-  /\ UNCHANGED <<avail, nextGen, closedGens, client, connUp, dead, panicked, cwait, ccl, epc, ecl, faults, nsre, cdone>>
+  /\ UNCHANGED <<avail, nextGen, closedGens, client, connUp, dead, panicked, cwait, ccl, epc, ecl, faults, nsre, cdone, inCache>>
 CClientDown2(c) ==    \* ... then the region is marked (SetClient(nil) only by the one who marks)
   /\ cpc[c] = "down2"
   /\ MarkUnavailableAndSpawn(TRUE) /\ cpc' = [cpc EXCEPT ![c] = "start"]
-  /\ UNCHANGED <<closedGens, connUp, cached, dead, panicked, cwait, ccl, ecl, faults, nsre, cdone>>
+  /\ UNCHANGED <<closedGens, connUp, cached, dead, panicked, cwait, ccl, ecl, faults, nsre, cdone, inCache>>
 
 CRelookup(c) ==       \* a replaced region: the request goes on with the new region (outside this model)
   /\ cpc[c] = "relookup" /\ cpc' = [cpc EXCEPT ![c] = "done"]
-  /\ UNCHANGED <<avail, nextGen, closedGens, client, connUp, cached, dead, panicked, cwait, ccl, epc, ecl, faults, nsre, cdone>>
+  /\ UNCHANGED <<avail, nextGen, closedGens, client, connUp, cached, dead, panicked, cwait, ccl, epc, ecl, faults, nsre, cdone, inCache>>
 
-Caller(c) == \/ CStart(c) \/ CWait(c, "wait1", "getc") \/ CGetClient(c) \/ CRecheck(c) \/ CWait(c, "wait2", "after2") \/ CAfter2(c)
+(* findRegion: look the region up in hbase:meta (every caller that misses gets its own fresh object; only the one whose *)
+(* put wins matters - it is THE region object of this model; the others find it in the cache on their retry), mark it  *)
+(* unavailable, publish it, start its establisher                                                                     *)
+FinderBusy == \E d \in Callers : cpc[d] \in {"fput", "fmark", "fspawn"}
+CLookup(c) ==
+  /\ cpc[c] = "miss"
+  /\ cpc' = [cpc EXCEPT ![c] = IF cdone THEN "done" ELSE "found"]
+  /\ UNCHANGED <<avail, nextGen, closedGens, client, connUp, cached, dead, panicked, cwait, ccl, epc, ecl, faults, nsre, cdone, inCache>>
+CFound(c) ==
+  /\ cpc[c] = "found" /\ ~FinderBusy
+  /\ IF inCache THEN cpc' = [cpc EXCEPT ![c] = "start"] /\ UNCHANGED <<avail, nextGen, inCache>>   \* put: same region already cached, retry
+     ELSE IF MarkBeforePut THEN /\ avail' = nextGen /\ nextGen' = nextGen + 1 /\ cpc' = [cpc EXCEPT ![c] = "fput"] /\ UNCHANGED inCache
+     ELSE inCache' = TRUE /\ cpc' = [cpc EXCEPT ![c] = "fmark"] /\ UNCHANGED <<avail, nextGen>>
+  /\ UNCHANGED <<closedGens, client, connUp, cached, dead, panicked, cwait, ccl, epc, ecl, faults, nsre, cdone>>
+CFPut(c) ==
+  /\ cpc[c] = "fput" /\ inCache' = TRUE /\ cpc' = [cpc EXCEPT ![c] = "fspawn"]
+  /\ UNCHANGED <<avail, nextGen, closedGens, client, connUp, cached, dead, panicked, cwait, ccl, epc, ecl, faults, nsre, cdone>>
+CFMark(c) ==          \* reg.MarkUnavailable() with the result ignored
+  /\ cpc[c] = "fmark" /\ cpc' = [cpc EXCEPT ![c] = "fspawn"]
+  /\ IF avail = 0 THEN avail' = nextGen /\ nextGen' = nextGen + 1 ELSE UNCHANGED <<avail, nextGen>>
+  /\ UNCHANGED <<closedGens, client, connUp, cached, dead, panicked, cwait, ccl, epc, ecl, faults, nsre, cdone, inCache>>
+CFSpawn(c) ==         \* go establishRegion(reg, addr): the address is known, the first round needs no lookup
+  /\ cpc[c] = "fspawn" /\ HasSlot
+  /\ epc' = [epc EXCEPT ![FreeSlot] = "put"] /\ cpc' = [cpc EXCEPT ![c] = "start"]
+  /\ UNCHANGED <<avail, nextGen, closedGens, client, connUp, cached, dead, panicked, cwait, ccl, ecl, faults, nsre, cdone, inCache>>
+
+Caller(c) == \/ CLookup(c) \/ CFound(c) \/ CFPut(c) \/ CFMark(c) \/ CFSpawn(c)
+             \/ CStart(c) \/ CWait(c, "wait1", "getc") \/ CGetClient(c) \/ CRecheck(c) \/ CWait(c, "wait2", "after2") \/ CAfter2(c)
              \/ CSend(c) \/ CNotServing(c) \/ CClientDown1(c) \/ CClientDown2(c) \/ CRelookup(c)
 
 ----------------------------------------------------------------------------
@@ -126,49 +160,49 @@ ESleep(e) ==          \* sleepAndIncreaseBackoff(reg.Context()): a dead region g
   /\ epc[e] = "sleep"
   /\ IF dead THEN MarkAvailable /\ epc' = [epc EXCEPT ![e] = "free"]
      ELSE epc' = [epc EXCEPT ![e] = "lookup"] /\ UNCHANGED <<avail, closedGens, panicked>>
-  /\ UNCHANGED <<nextGen, client, connUp, cached, dead, cpc, cwait, ccl, ecl, faults, nsre, cdone>>
+  /\ UNCHANGED <<nextGen, client, connUp, cached, dead, cpc, cwait, ccl, ecl, faults, nsre, cdone, inCache>>
 ELookup(e) ==         \* closed client: return without releasing; dead meanwhile: release; else the same region
   /\ epc[e] = "lookup"
   /\ IF dead THEN MarkAvailable /\ epc' = [epc EXCEPT ![e] = "free"]
      ELSE IF cdone THEN epc' = [epc EXCEPT ![e] = "free"] /\ UNCHANGED <<avail, closedGens, panicked>>
      ELSE epc' = [epc EXCEPT ![e] = "put"] /\ UNCHANGED <<avail, closedGens, panicked>>
-  /\ UNCHANGED <<nextGen, client, connUp, cached, dead, cpc, cwait, ccl, ecl, faults, nsre, cdone>>
+  /\ UNCHANGED <<nextGen, client, connUp, cached, dead, cpc, cwait, ccl, ecl, faults, nsre, cdone, inCache>>
 EPut(e) ==            \* clients.put: the cached connection of the server, or a new one (dialled at once here)
   /\ epc[e] = "put"
   /\ IF cached # 0 THEN ecl' = [ecl EXCEPT ![e] = cached] /\ UNCHANGED <<cached, connUp>>
      ELSE LET k == CHOOSE k \in Conns : ~connUp[k] /\ k # cached /\ \A c \in Callers : ccl[c] # k /\ k > 1 IN
           /\ ecl' = [ecl EXCEPT ![e] = k] /\ cached' = k /\ connUp' = [connUp EXCEPT ![k] = TRUE]
   /\ epc' = [epc EXCEPT ![e] = "probe"]
-  /\ UNCHANGED <<avail, nextGen, closedGens, client, dead, panicked, cpc, cwait, ccl, faults, nsre, cdone>>
+  /\ UNCHANGED <<avail, nextGen, closedGens, client, dead, panicked, cpc, cwait, ccl, faults, nsre, cdone, inCache>>
 EProbe(e) ==          \* dead connection -> clientDown and again; region not serving -> again; ok -> SetClient
   /\ epc[e] = "probe"
   /\ IF ~connUp[ecl[e]] THEN /\ cached' = (IF cached = ecl[e] THEN 0 ELSE cached) /\ epc' = [epc EXCEPT ![e] = "sleep"]
                              /\ UNCHANGED <<client, nsre>>
      ELSE IF nsre THEN nsre' = FALSE /\ epc' = [epc EXCEPT ![e] = "sleep"] /\ UNCHANGED <<client, cached>>
      ELSE client' = ecl[e] /\ epc' = [epc EXCEPT ![e] = "release"] /\ UNCHANGED <<cached, nsre>>
-  /\ UNCHANGED <<avail, nextGen, closedGens, connUp, dead, panicked, cpc, cwait, ccl, ecl, faults, cdone>>
+  /\ UNCHANGED <<avail, nextGen, closedGens, connUp, dead, panicked, cpc, cwait, ccl, ecl, faults, cdone, inCache>>
 ERelease(e) ==        \* the window between SetClient and MarkAvailable ends here
   /\ epc[e] = "release"
   /\ MarkAvailable /\ epc' = [epc EXCEPT ![e] = "free"]
-  /\ UNCHANGED <<nextGen, client, connUp, cached, dead, cpc, cwait, ccl, ecl, faults, nsre, cdone>>
+  /\ UNCHANGED <<nextGen, client, connUp, cached, dead, cpc, cwait, ccl, ecl, faults, nsre, cdone, inCache>>
 Est(e) == ESleep(e) \/ ELookup(e) \/ EPut(e) \/ EProbe(e) \/ ERelease(e)
 
 ----------------------------------------------------------------------------
 (* environment *)
 ConnDies == /\ faults < MaxFaults /\ \E k \in Conns : connUp[k] /\ connUp' = [connUp EXCEPT ![k] = FALSE]
             /\ faults' = faults + 1
-            /\ UNCHANGED <<avail, nextGen, closedGens, client, cached, dead, panicked, cpc, cwait, ccl, epc, ecl, nsre, cdone>>
+            /\ UNCHANGED <<avail, nextGen, closedGens, client, cached, dead, panicked, cpc, cwait, ccl, epc, ecl, nsre, cdone, inCache>>
 NotServingOnce == /\ faults < MaxFaults /\ ~nsre /\ nsre' = TRUE /\ faults' = faults + 1
-                  /\ UNCHANGED <<avail, nextGen, closedGens, client, connUp, cached, dead, panicked, cpc, cwait, ccl, epc, ecl, cdone>>
+                  /\ UNCHANGED <<avail, nextGen, closedGens, client, connUp, cached, dead, panicked, cpc, cwait, ccl, epc, ecl, cdone, inCache>>
 Split == /\ AllowSplit /\ faults < MaxFaults /\ ~dead /\ dead' = TRUE /\ faults' = faults + 1   \* cache put of a daughter: MarkDead
-         /\ UNCHANGED <<avail, nextGen, closedGens, client, connUp, cached, panicked, cpc, cwait, ccl, epc, ecl, nsre, cdone>>
+         /\ UNCHANGED <<avail, nextGen, closedGens, client, connUp, cached, panicked, cpc, cwait, ccl, epc, ecl, nsre, cdone, inCache>>
 (* a caller of ANOTHER region that shares the connection notices its death first and takes it out of the cache *)
 OtherRegionDown == /\ cached # 0 /\ ~connUp[cached] /\ cached' = 0
-                   /\ UNCHANGED <<avail, nextGen, closedGens, client, connUp, dead, panicked, cpc, cwait, ccl, epc, ecl, faults, nsre, cdone>>
+                   /\ UNCHANGED <<avail, nextGen, closedGens, client, connUp, dead, panicked, cpc, cwait, ccl, epc, ecl, faults, nsre, cdone, inCache>>
 Close == /\ AllowClose /\ ~cdone /\ cdone' = TRUE
          /\ (IF avail = 0 THEN avail' = nextGen /\ nextGen' = nextGen + 1 ELSE UNCHANGED <<avail, nextGen>>)   \* closeAll marks, nobody establishes
          /\ client' = 0
-         /\ UNCHANGED <<closedGens, connUp, cached, dead, panicked, cpc, cwait, ccl, epc, ecl, faults, nsre>>
+         /\ UNCHANGED <<closedGens, connUp, cached, dead, panicked, cpc, cwait, ccl, epc, ecl, faults, nsre, inCache>>
 AllDone == \A c \in Callers : cpc[c] = "done"
 Terminated == AllDone /\ (\A e \in Ests : epc[e] = "free") /\ UNCHANGED vars
 
